@@ -38,12 +38,10 @@ def resolveConstant (st : Static) (defs : Defs) (ctx : RCtx) (ref : Nat) (e : Ex
     | .error m => .error m
     | .ok (v, _) =>
       let prev := s.value
-      if st.opts.optStatic && ctx.first && s.known then
-        .ok (defs.setSym ref { s with value := v, resolved := true }, true, [])
-      else
-        let defs' := defs.setSym ref { s with value := v }
-        if !valuesStable v prev then .ok (defs', false, if ctx.last then ["constant value did not converge"] else [])
-        else .ok (defs', true, [])
+      -- the first-pass mark does not hide a change of the value (items before this one have not seen it)
+      let defs' := defs.setSym ref { s with value := v, resolved := st.opts.optStatic && ctx.first && s.known }
+      if !valuesStable v prev then .ok (defs', false, if ctx.last then ["constant value did not converge"] else [])
+      else .ok (defs', true, [])
 
 /-- no candidate is still `Unresolved` (it might yet become the smallest encoding) -/
 def allDefinite (st : Static) (defs : Defs) (ctx : RCtx) (cands : List IMatch) : Bool :=
